@@ -1482,17 +1482,33 @@ class SubstitutionInverse(Rule):
         lower = full_normalize(lower, ctx)
         upper = full_normalize(upper, ctx)
         # x = f(u) has to map the new end points back to the old ones
-        for new_b, old_b in ((lower, e.lower), (upper, e.upper)):
-            if new_b.is_evaluable() and old_b.is_evaluable() and not (old_b.is_inf() and not new_b.is_inf()):
+        for new_b, other_b, old_b in ((lower, upper, e.lower), (upper, lower, e.upper)):
+            if new_b.is_evaluable() and old_b.is_evaluable():
                 if new_b == POS_INF:
                     back = limits.reduce_inf_limit(self.var_subst, self.var_name, ctx.get_conds())
                 elif new_b == NEG_INF:
                     back = limits.reduce_neg_inf_limit(self.var_subst, self.var_name, ctx.get_conds())
+                elif old_b.is_inf():
+                    # f has a pole at new_b: take the limit from inside the new interval
+                    if lower == upper:
+                        raise AssertionError("SubstitutionInverse: %s does not map an interval onto [%s,%s]" % (
+                            self.var_subst, e.lower, e.upper))
+                    try:
+                        below = expr.eval_expr(new_b) < expr.eval_expr(other_b)
+                    except (NotImplementedError, ZeroDivisionError, ValueError, TypeError):
+                        continue  # the other end point is symbolic: the side is not known
+                    u = Var(self.var_name)
+                    back = limits.reduce_inf_limit(self.var_subst.subst(self.var_name, new_b + 1 / u if below else new_b - 1 / u),
+                                                   self.var_name, ctx.get_conds())
                 else:
                     back = self.var_subst.subst(self.var_name, new_b)
                 try:
                     v1, v2 = expr.eval_expr(back), expr.eval_expr(old_b)
-                    ok = (v1 == v2) or abs(v1 - v2) < 1e-9
+                    if old_b.is_inf() and not new_b.is_inf():
+                        # a pole evaluates to a large number (tan(pi/2)), not to infinity
+                        ok = (v1 == v2) or (abs(v1) > 1e10 and (v1 > 0) == (v2 > 0))
+                    else:
+                        ok = (v1 == v2) or abs(v1 - v2) < 1e-9
                 except (NotImplementedError, ZeroDivisionError, ValueError, TypeError):
                     ok = True  # cannot be evaluated numerically
                 if not ok:
